@@ -154,7 +154,7 @@ void harness(void)
 		c->obj.copy = data_reader_copy;
 		c->obj.refcount = 1;
 
-		VERIF_ASSERT(!VERIF_SAME_OBJECT(c, o) &&
+		VERIF_ASSERT(C19_DISTINCT(c, o) &&
 			     VERIF_RW_OK(c, sizeof(sqfs_data_reader_t) + BS),
 			     C19_OB("fresh"));
 		VERIF_ASSERT(c->block_size == BS && c->current_block == cur_block &&
@@ -173,7 +173,7 @@ void harness(void)
 			     C19_OB("fresh"));
 		if (HAVE_DB) {
 			VERIF_ASSERT(c->data_block != NULL &&
-				     !VERIF_SAME_OBJECT(c->data_block, odb) &&
+				     C19_DISTINCT(c->data_block, odb) &&
 				     c->data_blk_size == DBS &&
 				     VERIF_RW_OK(c->data_block, DBS) &&
 				     c->data_block[kd] == vd, C19_OB("fresh"));
@@ -184,7 +184,7 @@ void harness(void)
 		}
 		if (HAVE_FB) {
 			VERIF_ASSERT(c->frag_block != NULL &&
-				     !VERIF_SAME_OBJECT(c->frag_block, ofb) &&
+				     C19_DISTINCT(c->frag_block, ofb) &&
 				     c->frag_blk_size == FBS &&
 				     VERIF_RW_OK(c->frag_block, FBS) &&
 				     c->frag_block[kf] == vf, C19_OB("fresh"));
